@@ -636,6 +636,30 @@ theorem trackStep_inv {H : Hdr} {B : List UInt8} {id : BufId} {r : Reassembly} {
       rw [hg]
       exact inv.transfer hl
 
+theorem track_inv {H : Hdr} {B : List UInt8} {id : BufId} (dg : Datagram H B) :
+    ∀ (ops : List Op) (rg : Reassembly × List Frag), RInv H B id rg.1 rg.2 →
+      (∀ op ∈ ops, GoodOp H B id op) → RInv H B id (track id rg ops).1 (track id rg ops).2 := by
+  intro ops
+  induction ops with
+  | nil => intro rg inv _; exact inv
+  | cons op ops ih =>
+    intro rg inv good
+    simp only [track, List.foldl_cons]
+    exact ih _ (trackStep_inv dg inv op (good op (by simp))) (fun o ho => good o (by simp [ho]))
+
+
+/-- `track` follows the run: its reassembler is the one `run` computes -/
+theorem track_fst (id : BufId) : ∀ (ops : List Op) (rg : Reassembly × List Frag),
+    (track id rg ops).1 = (run Cfg.fixed rg.1 ops).1 := by
+  intro ops
+  induction ops with
+  | nil => intro rg; rfl
+  | cons op ops ih =>
+    intro rg
+    simp only [track, List.foldl_cons, run]
+    exact ih _
+
+
 /-! ### epochs and expiry tokens (fixed code) -/
 
 theorem Segment.receive_epoch (cfg : Cfg) (s : Segment) (h : Hdr) (b : List UInt8) (s' : Segment)
